@@ -13,6 +13,8 @@ Lemma pointers_per_block : go_inode_NBLKBLK = Abs.NPTR /\ go_inode_NBLKBLK * 8 =
 Lemma inode_slots : go_inode_NBLKINO = go_inode_NDIRECT + 2 /\ go_inode_INDIRECT = go_inode_NDIRECT /\
                     go_inode_DINDIRECT = go_inode_NDIRECT + 1 /\ go_inode_NINDLEVEL = 2. Proof. repeat split; reflexivity. Qed.
 Lemma dirent_size : go_dir_DIRENTSZ = Abs.DIRENTSZ /\ go_dir_MAXNAMELEN + 16 = go_dir_DIRENTSZ. Proof. split; reflexivity. Qed.
+(* the reply-size estimate READDIRPLUS charges per entry (dir.Apply), as used by the page model *)
+Lemma readdirplus_baggage : go_dir_entryplus3Baggage = Agree.ENTRYPLUS_BAGGAGE. Proof. reflexivity. Qed.
 Lemma inode_size : go_common_INODESZ = SuperModel.INODESZ /\ go_common_INODEBLK = SuperModel.INODEBLK /\
                    go_common_INODESZ * go_common_INODEBLK = go_disk_BlockSize. Proof. repeat split; reflexivity. Qed.
 Lemma bitmap_block : go_common_NBITBLOCK = SuperModel.NBITBLOCK /\ go_common_NINODEBITMAP = SuperModel.NINODEBITMAP. Proof. split; reflexivity. Qed.
